@@ -6,6 +6,7 @@ T3  typing obligations per construct: the arm calls the listed checkers on every
 T4  binding patterns (let, for, for-join) are shown irrefutable before the statement is accepted
 T5  recursion guard: tested before, set around, cleared after the body is checked
 T6  scoping: pushes and pops balance on accepting paths; every match clause is checked in its own scope
+T7  check_type accepts only on the equal edge of its comparison; unify accepts only after `==` or after testing both operand types
 """
 import re
 
@@ -26,6 +27,8 @@ LEVEL_TEXT = (
     "check_exhaustiveness) on every path to its accepting exit; (T4) let / for / for-join patterns go through the exhaustiveness "
     "procedure before acceptance (the compiler discards the match bit of binding patterns); (T5) the recursion guard brackets "
     "the body check; (T6) scopes balance on accepting paths and each match clause is checked between its own push and pop. "
+    "(T7) check_type returns Ok only on the equal edge of `expr.ty == expected`, and every accepting path of unify passes the "
+    "equality test or variant tests of both operands' types (no operand type is accepted unseen). "
     "Not decided: that unify / constrain_type / check_or_constrain_* compute the right relation on types (value level; the "
     "one structural slice of it, lossy casts before range checks, is C09-L1b), and combinations of two edits.")
 LEVEL_NOTE = ("Trusted: rustc MIR and callee resolution. The obligation table (T3) and the ownership table (T2) were filled by reading "
@@ -603,5 +606,70 @@ def rule_t6(ctx):
     return res
 
 
+def rule_t7(ctx):
+    """Agreement of two types is accepted only after comparing them or after looking at both."""
+    from . import C02
+    res = RuleResult("T7", "unify / check_type accept only after an equality test or after inspecting both types")
+    # check_type: Ok only on the equal edge of `expr.ty == expected`
+    cb = ctx.body("check::check_type")
+    oks = ok_exits(cb)
+    eq_true = set()
+    for b, t in cb.calls():
+        if mir.last_seg(mir.callee(t) or "") in ("eq", "ne") and len(t["args"]) == 2:
+            a0 = {(r, tuple(p)) for (r, p) in cb.trace_operand(t["args"][0])}
+            a1 = {(r, tuple(p)) for (r, p) in cb.trace_operand(t["args"][1])}
+            if any(r == ("arg", 1) and p[:1] == ("ty",) for (r, p) in a0 | a1) and any(r == ("arg", 2) and not p for (r, p) in a0 | a1):
+                if mir.last_seg(mir.callee(t)) == "eq":
+                    eq_true |= C02._some_edges(cb, t)
+    if not oks:
+        raise AnchorMissing("T7: check_type has no Ok exit")
+    for ob in oks:
+        if eq_true and C02._dominated_by_edges(cb, eq_true, ob):
+            res.ok({"function": "check_type", "verdict": "Ok only on the equal edge of `expr.ty == expected`"})
+        else:
+            res.bad(Finding("T7", cb.id, "check_type accepts without comparing", "an Ok exit of check_type is not guarded by the equality of the expression's type and the expected type", cb.fn["sp"]))
+    # unify
+    body = ctx.body("check::unify")
+    oks = ok_exits(body)
+    if not oks:
+        raise AnchorMissing("T7: unify has no Ok exit")
+    eq_true = set()
+    for b, t in body.calls():
+        if mir.last_seg(mir.callee(t) or "") == "eq" and len(t["args"]) == 2:
+            srcs = set()
+            for a in t["args"]:
+                for (r, p) in body.trace_operand(a):
+                    if r in (("arg", 1), ("arg", 2)) and tuple(p[:1]) == ("ty",):
+                        srcs.add(r[1])
+            if srcs == {1, 2}:
+                eq_true |= C02._some_edges(body, t)
+    if not eq_true:
+        res.bad(Finding("T7", body.id, "unify never compares the two types", "no `e1.ty == e2.ty` test found in unify", body.fn["sp"]))
+        return res
+    side = {1: set(), 2: set()}
+    for b in range(body.n):
+        t = body.term(b)
+        if not t or t["k"] != "switch" or body.blocks[b]["cleanup"] or t["discr"]["k"] not in ("copy", "move"):
+            continue
+        for d in body.defs().get(t["discr"]["place"]["l"], []):
+            if d[0] == "assign" and d[3]["rv"]["k"] == "discriminant":
+                for (r, p) in body.trace(d[3]["rv"]["place"]):
+                    if r in (("arg", 1), ("arg", 2)) and tuple(p[:1]) == ("ty",):
+                        side[r[1]].add(b)
+    for k in (1, 2):
+        def succ(b, k=k):
+            if b in side[k]:
+                return []
+            return [x for x in body.succs(b) if (b, x) not in eq_true and not body.blocks[x]["cleanup"]]
+        w = body.path(0, oks, succ=succ)
+        if w:
+            res.bad(Finding("T7", body.id, "unify accepts without looking at the type of operand %d" % k,
+                            "a path reaches the accepting exit of unify without the equality test and without any test on e%d.ty (blocks %s): "
+                            "one operand's type is accepted whatever it is" % (k, w), body.fn["sp"]))
+        else:
+            res.ok({"function": "unify", "verdict": "every accepting path passes `e1.ty == e2.ty` or a variant test of e%d.ty" % k, "variant_tests": len(side[k])})
+    return res
+
+
 def run(ctx):
-    return ctx.run_rules([rule_t1, rule_t2, rule_t3, rule_t4, rule_t5, rule_t6])
+    return ctx.run_rules([rule_t1, rule_t2, rule_t3, rule_t4, rule_t5, rule_t6, rule_t7])
